@@ -480,6 +480,30 @@ mod k2 {
             if r.below(5) == 0 { p.translation.vector[r.below(2) as usize] = if r.bool() { 0.0 } else { -0.0 }; }
             v.push(("sat_cuboid_cuboid_oneway2".into(), format!("{} {} {}", d2::hv(&h1), d2::hv(&h2), d2::hiso(&p))));
         }
+        // ---- focused streams: SAT-derived routes (triangle×cuboid closest points, cuboid×cuboid distance) and crossing segments
+        let nf = if thorough { 1500 } else { 150 };
+        for it in 0..nf {
+            let lat = it % 4 == 0;
+            let (ka, kb, f) = match it % 4 { 0 => ("triangle", "cuboid", "cpl2"), 1 => ("cuboid", "cuboid", "dist2"), 2 => ("segment", "segment", "cp2"), _ => ("triangle", "cuboid", "cp2") };
+            let s1 = gen_shape(r, ka, lat); let s2 = gen_shape(r, kb, lat);
+            let reach = s1.size() + s2.size();
+            let u = gen_unit(r, lat);
+            let dist = if ka == "segment" { reach * r.uniform(0.0, 0.6) } else if lat { *r.pick(&[2.0, 3.0, 4.0, 6.0]) } else { reach * r.uniform(0.3, 2.0) };
+            let mut p12 = d2::gen_iso(r, lat, 0.0);
+            if ka == "cuboid" && it % 8 == 1 { // parallel faces, partial overlap
+                let c = *r.pick(&[(1.0, 0.0), (0.0, 1.0), (-1.0, 0.0)]);
+                p12.rotation = Unit::new_unchecked(na::Complex::new(c.0, c.1));
+            }
+            p12.translation.vector = u * dist;
+            let p1 = if r.bool() { Isometry::identity() } else { d2::gen_iso(r, lat, 5.0) };
+            let p2 = p1 * p12;
+            let m = if r.bool() { f64::MAX } else { reach * r.uniform(0.0, 3.0) };
+            match f {
+                "cpl2" => v.push(("cpl2".into(), format!("{} {} {} {}", hx(m), s1.tokens(), s2.tokens(), d2::hiso(&p12)))),
+                "cp2" => v.push(("cp2".into(), format!("{} {} {} {} {}", hx(m), s1.tokens(), d2::hiso(&p1), s2.tokens(), d2::hiso(&p2)))),
+                _ => v.push(("dist2".into(), format!("{} {} {} {}", s1.tokens(), d2::hiso(&p1), s2.tokens(), d2::hiso(&p2)))),
+            }
+        }
         let reps = if thorough { 30 } else { 4 };
         for rep in 0..reps {
             for k1 in KINDS.iter() { for k2 in KINDS.iter() {
